@@ -189,6 +189,7 @@ Theorem C01_ebsim_dec_start_face : forall NC maxv nfz s a, Edgebreaker_proofs.W 
   let vx := Edgebreaker.c2v s (Edgebreaker.next_c b) in let lx := Edgebreaker.vc s vx in let c := Edgebreaker.next_c lx in
   0 <= ln < 3 * f -> 0 <= lx < 3 * f -> a <> b -> a <> c -> b <> c ->
   Edgebreaker.copp s a = -1 -> Edgebreaker.copp s b = -1 -> Edgebreaker.copp s c = -1 ->
+  Edgebreaker.c2v s (Edgebreaker.prev_c a) = Edgebreaker.c2v s (Edgebreaker.next_c c) ->
   exists s', Edgebreaker.start_face NC maxv nfz s a = Edgebreaker.Ok s' /\
     Edgebreaker.copp s' = Edgebreaker.upd (Edgebreaker.upd (Edgebreaker.upd (Edgebreaker.upd (Edgebreaker.upd (Edgebreaker.upd (Edgebreaker.copp s)
         (3 * f) a) a (3 * f)) (3 * f + 1) b) b (3 * f + 1)) (3 * f + 2) c) c (3 * f + 2) /\
